@@ -197,6 +197,12 @@ func inject(r *gen.Rand, v *spec.Version, s string, f func(d defect)) {
 		}
 		// unknown abbreviation inserted before element i (and at the very end)
 		unk := []string{"XX", strings.ToLower(k), k + "X", "M" + k + "Q", gen.AllAbvs[r.Intn(len(gen.AllAbvs))], "Z"}
+		// look-alikes of this element's own abbreviation (same length, same first and/or last byte)
+		if la := lookalikes(k); len(la) > 0 {
+			unk = append(unk, la[r.Intn(len(la))], la[r.Intn(len(la))], la[len(la)-3], la[len(la)-4])
+		} else {
+			unk = append(unk, string(rune(k[0])+1), strings.ToLower(k)+k)
+		}
 		for _, u := range unk {
 			if v.Index(u) >= 0 {
 				continue
